@@ -7,6 +7,7 @@ from ._tracer import TraceRun, dist, TWO_PI
 from . import c10
 
 START = (10.0, 5.0, -2.0)
+START_FAR = (2400.0, -1800.0, 350.0)     # far from the origin: coordinates ~1e5 x the fine resolutions
 
 
 def constant_speed_cases(tier):
@@ -59,14 +60,14 @@ def other_shapes():
     ]
 
 
-def trace_lengths(builder, resolution, direction, mode, units):
-    run = TraceRun(START, mode, direction, resolution, dp=8, units=units)
+def trace_lengths(builder, resolution, direction, mode, units, start=START):
+    run = TraceRun(start, mode, direction, resolution, dp=8, units=units)
     r = float(run.st.g.state.resolution)           # the configured resolution at trace time
-    shape, args, exp = builder(START, direction)
-    exc, verts = run.trace(shape, args, start=START)
+    shape, args, exp = builder(start, direction)
+    exc, verts = run.trace(shape, args, start=start)
     if exc is not None:
         return r, shape, exc, [], []
-    pts = [START] + verts
+    pts = [start] + verts
     segs = [dist(pts[i], pts[i + 1]) for i in range(len(verts))]
     return r, shape, None, verts, segs
 
@@ -74,9 +75,11 @@ def trace_lengths(builder, resolution, direction, mode, units):
 def _work(item):
     kind, idx, resolution, direction, mode, units, tier = item
     out = []
-    if kind == "speed":
+    if kind in ("speed", "speed-far"):
         label, builder, L, R = constant_speed_cases(tier)[idx]
-        r, shape, exc, verts, segs = trace_lengths(builder, resolution, direction, mode, units)
+        if kind == "speed-far":
+            label += " far from the origin"
+        r, shape, exc, verts, segs = trace_lengths(builder, resolution, direction, mode, units, start=START_FAR if kind == "speed-far" else START)
         rp = {"kind": kind, "index": idx, "label": label, "resolution": resolution, "direction": direction, "mode": mode, "units": units}
         if exc is not None:
             return [(f"{shape}:raised", f"{label} at resolution {resolution}: {exc!r}", rp)], 0
@@ -184,6 +187,9 @@ def run(tier, seed):
             items.append(("speed", idx, r, "clockwise" if idx % 2 else "counter", "absolute", None, tier))
             if ratio <= 400:
                 items.append(("speed", idx, r, "counter" if idx % 2 else "clockwise", "relative", "in", tier))
+        if R == 10.0 and ("sweep90 dzNone" in label or label in ("circle R10.0", "arc_radius R10.0 ratio0.3 sign1", "helix R10.0 turns1 dz8.0")):
+            for r in (0.02, 1.0):
+                items.append(("speed-far", idx, r, "clockwise", "absolute", None, tier))
         if L <= 700:
             items.append(("mono-speed", idx, 1.0 if R >= 1 else 0.5, "clockwise", "absolute", None, tier))
         elif R >= 1000 and L <= 7000:
@@ -205,7 +211,7 @@ def run(tier, seed):
         nseg += n
         for sig, msg, rp in out:
             res.add(Violation(sig, msg, rp))
-    ratios = sorted({round(math.log10(max(cases[i[1]][2] / i[2], 1e-9)), 0) for i in items if i[0] == "speed"})
+    ratios = sorted({round(math.log10(max(cases[i[1]][2] / i[2], 1e-9)), 0) for i in items if i[0] in ("speed", "speed-far")})
     res.coverage = {
         "evaluations": len(items), "distinct_nontrivial": len(items),
         "rule": ("grid of constant-speed shapes (arc incl. helical and steep/shallow ones, arc_radius minor/major/semicircle, circle, constant-radius helix) x radius {1,10,100} x sweep x "
